@@ -89,12 +89,48 @@ def allowed_for(name, arg):
     return None
 
 
+def removed_lines(inp, out):
+    """indices of the lines of `inp` that are missing in `out` if `out` is `inp` with whole lines removed, else None"""
+    a, b = inp.splitlines(keepends=True), out.splitlines(keepends=True)
+    rem, j = [], 0
+    for i, l in enumerate(a):
+        if j < len(b) and b[j] == l:
+            j += 1
+        else:
+            rem.append(i)
+    return (a, rem) if j == len(b) else (a, None)
+
+
+def documented_line_edit(name, arg, inp, out):
+    """the line-oriented passes, read independently of their code: which whole lines may a candidate drop?"""
+    a, rem = removed_lines(inp, out)
+    if rem is None or not rem:
+        return 'candidate-is-not-the-input-minus-whole-lines'
+    if name == 'includes':
+        if len(rem) != 1 or not re.match(r'\s*#\s*include', a[rem[0]]):
+            return 'includes-removed-something-other-than-one-include-line'
+    elif name == 'line_markers':
+        if not all(re.match(r'\s*#\s*[0-9]+', a[i]) for i in rem):
+            return 'line-markers-removed-a-line-that-is-no-line-marker'
+    elif name == 'blank':
+        blank = [i for i, l in enumerate(a) if re.match(r'^\s*$', l)]
+        hashes = [i for i, l in enumerate(a) if l.startswith('#')]
+        if rem != blank and rem != hashes:
+            return 'blank-removed-something-other-than-all-blank-lines-or-all-hash-lines'
+    elif name == 'lines':
+        if not any(out == ''.join(a[:i] + a[j:]) for i in range(len(a)) for j in range(i + 1, len(a) + 1)):
+            return 'lines-removed-something-other-than-one-block-of-lines'
+    return None
+
+
 def judge_candidate(name, arg, inp, out):
     if out == inp:
         return 'ok-candidate-equals-input'
     if (name, arg) in DELETION:
         if not is_subseq(out, inp):
             return 'deletion-pass-output-not-a-subsequence'
+        if name in ('includes', 'line_markers', 'blank') or (name, arg) == ('lines', 'None'):
+            return documented_line_edit(name, arg, inp, out)
         return None
     allowed = allowed_for(name, arg)
     if allowed is not None and not splice_ok(inp, out, allowed):
